@@ -116,10 +116,8 @@ func apiKeyMiddleware(validKeys map[string]bool) server.Middleware {
 		return func(ctx *server.Context) error {
 			key := strings.TrimSpace(ctx.Request.Header.Get("X-API-Key"))
 			if key == "" {
-				const bearer = "Bearer "
-				authHeader := ctx.Request.Header.Get("Authorization")
-				if strings.HasPrefix(authHeader, bearer) {
-					key = strings.TrimSpace(strings.TrimPrefix(authHeader, bearer))
+				if token, ok := server.BearerToken(ctx.Request.Header.Get("Authorization")); ok {
+					key = strings.TrimSpace(token)
 				}
 			}
 
